@@ -1,2 +1,673 @@
 (** Proofs about [Heap] (statements used by Properties/C18.v). *)
 From incr Require Import Base Heap HeapSpec.
+
+Local Open Scope Z_scope.
+
+(** * Buckets as a function of the height *)
+
+Definition bk (bs : list (list nid)) (x : nat) : list nid := default [] (bs !! x).
+
+Lemma bk_nonempty_lookup bs x : bk bs x <> [] -> exists b, bs !! x = Some b /\ b <> [].
+Proof.
+  unfold bk. destruct (bs !! x) as [b|]; simpl; intros H.
+  - exists b; auto.
+  - congruence.
+Qed.
+
+Lemma bk_lookup bs x b : bs !! x = Some b -> bk bs x = b.
+Proof. unfold bk. intros ->. reflexivity. Qed.
+
+Lemma elem_of_concat_bk bs (n : nid) : n ∈ concat bs <-> exists x, n ∈ bk bs x.
+Proof.
+  induction bs as [|b bs IH]; simpl.
+  - split.
+    + intros H; inversion H.
+    + intros [x H]. unfold bk in H. rewrite lookup_nil in H. simpl in H. inversion H.
+  - rewrite elem_of_app, IH. split.
+    + intros [H|[x H]].
+      * exists 0%nat. exact H.
+      * exists (S x). exact H.
+    + intros [[|x] H].
+      * left; exact H.
+      * right; exists x; exact H.
+Qed.
+
+Lemma concat_split (bs : list (list nid)) x b : bs !! x = Some b ->
+  exists l1 l2, concat bs = l1 ++ b ++ l2 /\
+                forall b', concat (<[x:=b']> bs) = l1 ++ b' ++ l2.
+Proof.
+  revert x; induction bs as [|a bs IH]; intros [|x] H; simpl in H; try discriminate.
+  - injection H as ->. exists [], (concat bs). split; [reflexivity|]. intros; reflexivity.
+  - destruct (IH x H) as (l1 & l2 & E1 & E2). exists (a ++ l1), l2. split.
+    + simpl. rewrite E1. rewrite app_assoc. reflexivity.
+    + intros b'. simpl. rewrite E2. rewrite app_assoc. reflexivity.
+Qed.
+
+Lemma bk_insert bs x b y : (x < length bs)%nat ->
+  bk (<[x:=b]> bs) y = if decide (y = x) then b else bk bs y.
+Proof.
+  intros Hx. unfold bk. destruct (decide (y = x)) as [->|Hne].
+  - rewrite list_lookup_insert by exact Hx. reflexivity.
+  - rewrite list_lookup_insert_ne by congruence. reflexivity.
+Qed.
+
+Lemma bk_drop bs s y : bk (drop s bs) y = bk bs (s + y).
+Proof. unfold bk. rewrite lookup_drop. reflexivity. Qed.
+
+(** * scan_from / nextMinFrom *)
+
+Lemma scan_from_spec l s :
+  match scan_from l s with
+  | Some x => (s <= x)%nat /\ bk l (x - s) <> [] /\ forall y, (y < x - s)%nat -> bk l y = []
+  | None => forall y, bk l y = []
+  end.
+Proof.
+  revert s; induction l as [|b l IH]; intros s; simpl.
+  - intros y. unfold bk. rewrite lookup_nil. reflexivity.
+  - destruct b as [|n b].
+    + specialize (IH (S s)). destruct (scan_from l (S s)) as [x|].
+      * destruct IH as (H1 & H2 & H3). split; [lia|]. split.
+        -- replace (x - s)%nat with (S (x - S s)) by lia. exact H2.
+        -- intros [|y] Hy; [reflexivity|]. apply (H3 y). lia.
+      * intros [|y]; [reflexivity|]. apply (IH y).
+    + split; [lia|]. split.
+      * rewrite Nat.sub_diag. discriminate.
+      * intros y Hy; lia.
+Qed.
+
+Lemma scan_drop_spec bs s :
+  match scan_from (drop s bs) s with
+  | Some x => (s <= x)%nat /\ bk bs x <> [] /\ forall y, (s <= y < x)%nat -> bk bs y = []
+  | None => forall y, (s <= y)%nat -> bk bs y = []
+  end.
+Proof.
+  pose proof (scan_from_spec (drop s bs) s) as H.
+  destruct (scan_from (drop s bs) s) as [x|].
+  - destruct H as (H1 & H2 & H3). split; [exact H1|]. split.
+    + rewrite bk_drop in H2. replace (s + (x - s))%nat with x in H2 by lia. exact H2.
+    + intros y Hy. specialize (H3 (y - s)%nat). rewrite bk_drop in H3.
+      replace (s + (y - s))%nat with y in H3 by lia. apply H3. lia.
+  - intros y Hy. specialize (H (y - s)%nat). rewrite bk_drop in H.
+    replace (s + (y - s))%nat with y in H by lia. exact H.
+Qed.
+
+Lemma nextMinFrom_lb bs c from :
+  0 < c -> (forall y, bk bs y <> [] -> from <= Z.of_nat y) ->
+  0 <= nextMinFrom bs c from /\ forall y, bk bs y <> [] -> nextMinFrom bs c from <= Z.of_nat y.
+Proof.
+  intros Hc Hlb. unfold nextMinFrom.
+  destruct (Z.eqb_spec c 0) as [->|_]; [lia|].
+  pose proof (scan_drop_spec bs (Z.to_nat (Z.max 0 from))) as H.
+  destruct (scan_from _ _) as [x|].
+  - destruct H as (H1 & H2 & H3). split; [lia|].
+    intros y Hy. specialize (Hlb y Hy).
+    destruct (decide (x <= y)%nat) as [|Hn]; [lia|].
+    exfalso. apply Hy. apply H3. lia.
+  - split; [lia|]. intros; lia.
+Qed.
+
+(** * grow *)
+
+Lemma concat_replicate_nil k : concat (replicate k ([] : list nid)) = [].
+Proof. induction k; simpl; auto. Qed.
+
+Lemma bk_replicate_nil k x : bk (replicate k []) x = [].
+Proof.
+  unfold bk. destruct (replicate k [] !! x) as [b|] eqn:E; [|reflexivity].
+  apply lookup_replicate in E as [-> _]. reflexivity.
+Qed.
+
+Lemma bk_app bs bs' x :
+  bk (bs ++ bs') x = if decide (x < length bs)%nat then bk bs x else bk bs' (x - length bs).
+Proof.
+  unfold bk. destruct (decide (x < length bs)%nat).
+  - rewrite lookup_app_l by assumption. reflexivity.
+  - rewrite lookup_app_r by lia. reflexivity.
+Qed.
+
+Lemma bk_ge bs x : (length bs <= x)%nat -> bk bs x = [].
+Proof. intros H. unfold bk. rewrite lookup_ge_None_2 by exact H. reflexivity. Qed.
+
+Lemma bk_grow bs h x : bk (grow bs h) x = bk bs x.
+Proof.
+  unfold grow. destruct (length bs <=? h)%nat; [|reflexivity].
+  rewrite bk_app. destruct (decide (x < length bs)%nat); [reflexivity|].
+  rewrite bk_replicate_nil, bk_ge by lia. reflexivity.
+Qed.
+
+Lemma concat_grow bs h : concat (grow bs h) = concat bs.
+Proof.
+  unfold grow. destruct (length bs <=? h)%nat; [|reflexivity].
+  rewrite concat_app, concat_replicate_nil, app_nil_r. reflexivity.
+Qed.
+
+Lemma grow_length bs h : (h < length (grow bs h))%nat /\ (length bs <= length (grow bs h))%nat.
+Proof.
+  unfold grow. destruct (Nat.leb_spec (length bs) h).
+  - rewrite app_length, replicate_length. lia.
+  - lia.
+Qed.
+
+(** * remove_first *)
+
+Lemma remove_first_perm n l : n ∈ l -> l ≡ₚ n :: remove_first n l.
+Proof.
+  induction l as [|x l IH]; intros H.
+  - inversion H.
+  - simpl. destruct (decide (x = n)) as [->|Hne]; [reflexivity|].
+    assert (n ∈ l) as Hl by (apply elem_of_cons in H as [->|]; [congruence|assumption]).
+    rewrite Permutation_swap. constructor. apply IH, Hl.
+Qed.
+
+(** * foldr delete *)
+
+Lemma lookup_foldr_delete (m : gmap nid Z) l k :
+  foldr delete m l !! k = if bool_decide (k ∈ l) then None else m !! k.
+Proof.
+  induction l as [|a l IH]; cbn [foldr].
+  - rewrite bool_decide_eq_false_2; [reflexivity|]. intros H; inversion H.
+  - destruct (decide (a = k)) as [->|Hne].
+    + rewrite lookup_delete. rewrite bool_decide_eq_true_2; [reflexivity|]. constructor.
+    + rewrite lookup_delete_ne by exact Hne. rewrite IH.
+      destruct (decide (k ∈ l)) as [Hin|Hnin].
+      * rewrite !bool_decide_eq_true_2; auto. constructor; exact Hin.
+      * rewrite !bool_decide_eq_false_2; auto.
+        intros [->|?]%elem_of_cons; congruence.
+Qed.
+
+(** * Consequences of the invariant *)
+
+Lemma elem_ids w n : n ∈ ids w <-> exists x, n ∈ bucket w x.
+Proof. apply elem_of_concat_bk. Qed.
+
+Lemma hin_bucket w n x : inv w -> n ∈ bucket w x -> hin w !! n = Some (Z.of_nat x).
+Proof.
+  intros I H. apply (inv_hin w I). split; [lia|]. rewrite Nat2Z.id. exact H.
+Qed.
+
+Lemma hinOf_bucket w n x : inv w -> n ∈ bucket w x -> hinOf w n = Z.of_nat x.
+Proof. intros I H. unfold hinOf. rewrite (hin_bucket w n x I H). reflexivity. Qed.
+
+Lemma cnt_nonneg w : inv w -> 0 <= cnt w.
+Proof. intros I. rewrite (inv_cnt w I). lia. Qed.
+
+Lemma mem_true_inv w n : inv w -> mem w n = true ->
+  exists h, 0 <= h /\ hin w !! n = Some h /\ hinOf w n = h /\ n ∈ bucket w (Z.to_nat h).
+Proof.
+  intros I H. unfold mem in H. apply bool_decide_eq_true in H.
+  unfold hinOf in *. destruct (hin w !! n) as [h|] eqn:E; simpl in H; [|congruence].
+  apply (inv_hin w I) in E as E'. destruct E' as [H0 Hb].
+  exists h. simpl. auto.
+Qed.
+
+Lemma mem_false_inv w n : inv w -> mem w n = false -> n ∉ ids w /\ hin w !! n = None.
+Proof.
+  intros I H. unfold mem in H. apply bool_decide_eq_false in H.
+  assert (hinOf w n = unset) as Hu by (destruct (decide (hinOf w n = unset)); tauto).
+  assert (hin w !! n = None) as Hn.
+  { unfold hinOf in Hu. destruct (hin w !! n) as [h|] eqn:E; [|reflexivity].
+    simpl in Hu. subst h. apply (inv_hin w I) in E. unfold unset in E. lia. }
+  split; [|exact Hn]. intros [x Hx]%elem_ids.
+  rewrite (hin_bucket w n x I Hx) in Hn. discriminate.
+Qed.
+
+Lemma ids_nil_bucket w x : ids w = [] -> bucket w x = [].
+Proof.
+  intros H. destruct (bucket w x) as [|n b] eqn:E; [reflexivity|].
+  assert (n ∈ ids w) as Hin by (apply elem_ids; exists x; rewrite E; constructor).
+  rewrite H in Hin. inversion Hin.
+Qed.
+
+Lemma cnt_pos_ids w : inv w -> ids w <> [] -> 0 < cnt w.
+Proof.
+  intros I H. rewrite (inv_cnt w I). destruct (ids w); [congruence|]. simpl. lia.
+Qed.
+
+Lemma cnt_zero_ids w : inv w -> cnt w <= 0 -> ids w = [].
+Proof.
+  intros I H. rewrite (inv_cnt w I) in H. destruct (ids w); [reflexivity|]. simpl in H. lia.
+Qed.
+
+(** * The generic "take [rm] out of bucket [x]" step *)
+
+Lemma inv_take w x b b' rm mn c :
+  inv w -> buckets w !! x = Some b -> b ≡ₚ rm ++ b' ->
+  c = cnt w - Z.of_nat (length rm) ->
+  (0 < c -> 0 <= mn /\ forall y, bk (<[x:=b']> (buckets w)) y <> [] -> mn <= Z.of_nat y) ->
+  let w' := mk (<[x:=b']> (buckets w)) mn (maxH w) c (foldr delete (hin w) rm) in
+  inv w' /\ ids w ≡ₚ rm ++ ids w' /\
+  forall m, hinOf w' m = if bool_decide (m ∈ rm) then unset else hinOf w m.
+Proof.
+  intros I Hx Hb Hc Hmn w'.
+  assert (Hlen : (x < length (buckets w))%nat) by (eapply lookup_lt_Some; eauto).
+  destruct (concat_split _ _ _ Hx) as (l1 & l2 & E1 & E2).
+  assert (Hperm : ids w ≡ₚ rm ++ ids w').
+  { unfold ids, w'; cbn [buckets]. rewrite E1, (E2 b'), Hb.
+    rewrite <- (app_assoc rm b' l2). apply Permutation_app_swap_app. }
+  assert (Hnd : NoDup (rm ++ ids w')) by (rewrite <- Hperm; apply (inv_nodup w I)).
+  apply NoDup_app in Hnd as (Hnd1 & Hnd2 & Hnd3).
+  assert (Hbk : forall y, bucket w' y = if decide (y = x) then b' else bucket w y).
+  { intros y. unfold bucket, w'; cbn [buckets]. apply (bk_insert _ _ _ _ Hlen). }
+  assert (Hbx : bucket w x = b) by (apply bk_lookup, Hx).
+  assert (Hsub : forall y, bucket w' y <> [] -> bucket w y <> []).
+  { intros y. rewrite Hbk. destruct (decide (y = x)) as [->|]; [|auto].
+    rewrite Hbx. intros Hne ->. apply Permutation_nil_l in Hb.
+    symmetry in Hb. apply app_eq_nil in Hb as [_ ?]. congruence. }
+  assert (Hhin : forall m, hinOf w' m = if bool_decide (m ∈ rm) then unset else hinOf w m).
+  { intros m. unfold hinOf, w'; cbn [hin]. rewrite lookup_foldr_delete.
+    destruct (bool_decide (m ∈ rm)); reflexivity. }
+  split; [|split; [exact Hperm|exact Hhin]].
+  constructor.
+  - exact Hnd3.
+  - intros m z. unfold w' at 1; cbn [hin]. rewrite lookup_foldr_delete.
+    rewrite Hbk. case_bool_decide as Hm.
+    + split; [discriminate|]. intros [Hz Hin]. exfalso. apply (Hnd2 m Hm).
+      apply elem_ids. exists (Z.to_nat z). rewrite Hbk. exact Hin.
+    + rewrite (inv_hin w I m z).
+      destruct (decide (Z.to_nat z = x)) as [->|]; [|reflexivity].
+      rewrite Hbx, Hb, elem_of_app. tauto.
+  - unfold w' at 1; cbn [cnt]. rewrite Hc, (inv_cnt w I), Hperm, app_length. lia.
+  - unfold w'; cbn [cnt minH maxH buckets]. intros Hpos.
+    assert (0 < cnt w) as Hpos' by lia.
+    destruct (inv_cursor w I Hpos') as (C1 & C2 & C3).
+    destruct (Hmn Hpos) as (M1 & M2).
+    split; [exact M1|]. split.
+    + intros y Hy. split; [apply M2, Hy|]. apply C2, Hsub, Hy.
+    + rewrite insert_length. exact C3.
+Qed.
+
+(** * The C18 lemmas *)
+
+Lemma heap_inv_empty : forall k, inv (Heap.empty k).
+Proof.
+  intros k. unfold Heap.empty. constructor.
+  - unfold ids; cbn [buckets]. rewrite concat_replicate_nil. constructor.
+  - intros n x. cbn [hin]. unfold bucket; cbn [buckets]. rewrite lookup_empty.
+    fold (bk (replicate k []) (Z.to_nat x)). rewrite bk_replicate_nil.
+    split; [discriminate|]. intros [_ H]; inversion H.
+  - unfold ids; cbn [buckets cnt]. rewrite concat_replicate_nil. reflexivity.
+  - cbn [cnt]. lia.
+Qed.
+
+Lemma heap_add_negative : forall w n h, h < 0 -> Heap.add w n h = Crash HeapNegativeHeight.
+Proof.
+  intros w n h H. unfold add. destruct (Z.ltb_spec h 0); [reflexivity|lia].
+Qed.
+
+Lemma heap_len_spec : forall w, inv w -> Heap.len w = Z.of_nat (length (Heap.ids w)).
+Proof. intros w I. unfold len. apply (inv_cnt w I). Qed.
+
+Lemma heap_cursor_sound : forall w h, inv w -> Heap.minHeight w = Some h ->
+  forall m, m ∈ Heap.ids w -> h <= Heap.hinOf w m.
+Proof.
+  intros w h I Hm m Hin. unfold minHeight in Hm.
+  destruct (Z.eqb_spec (cnt w) 0) as [|Hne]; [discriminate|]. injection Hm as <-.
+  pose proof (cnt_nonneg w I) as Hc.
+  destruct (inv_cursor w I ltac:(lia)) as (_ & C2 & _).
+  apply elem_ids in Hin as [x Hx]. rewrite (hinOf_bucket w m x I Hx).
+  apply C2. intros E. rewrite E in Hx. inversion Hx.
+Qed.
+
+Lemma add_ok w n h : 0 <= h -> exists w', add w n h = Ok w'.
+Proof.
+  intros Hh. unfold add. destruct (Z.ltb_spec h 0); [lia|].
+  destruct (if cnt w =? 0 then _ else _) as [mn mx]. eauto.
+Qed.
+
+Lemma heap_add_spec : forall w n h, inv w -> Heap.mem w n = false -> 0 <= h ->
+  exists w', Heap.add w n h = Ok w' /\ inv w' /\ Heap.ids w' ≡ₚ n :: Heap.ids w /\
+             forall m, Heap.hinOf w' m = if decide (m = n) then h else Heap.hinOf w m.
+Proof.
+  intros w n h I Hm Hh.
+  destruct (mem_false_inv w n I Hm) as [Hnin Hnone].
+  pose proof (cnt_nonneg w I) as Hcnt.
+  unfold add. destruct (Z.ltb_spec h 0) as [|_]; [lia|].
+  destruct (if cnt w =? 0 then (h, h) else (Z.min (minH w) h, Z.max (maxH w) h))
+    as [mn mx] eqn:Emm.
+  set (hn := Z.to_nat h). set (g := grow (buckets w) hn).
+  eexists; split; [reflexivity|].
+  set (w' := mk _ _ _ _ _).
+  destruct (grow_length (buckets w) hn) as [Hg1 Hg2]. fold g in Hg1, Hg2.
+  assert (Hgbk : forall y, bk g y = bucket w y) by (intros y; apply bk_grow).
+  destruct (lookup_lt_is_Some_2 g hn Hg1) as [b0 Hb0].
+  assert (Eb0 : b0 = bucket w hn) by (rewrite <- Hgbk; symmetry; apply bk_lookup, Hb0).
+  assert (Hbk : forall y, bucket w' y = if decide (y = hn) then bucket w hn ++ [n] else bucket w y).
+  { intros y. unfold bucket at 1, w'; cbn [buckets]. fold (bk (<[hn:=default [] (g !! hn) ++ [n]]> g) y).
+    rewrite (bk_insert _ _ _ _ Hg1). rewrite Hgbk. rewrite Hb0. simpl. rewrite Eb0. reflexivity. }
+  assert (Hperm : ids w' ≡ₚ n :: ids w).
+  { destruct (concat_split g hn b0 Hb0) as (l1 & l2 & E1 & E2).
+    unfold ids, w'; cbn [buckets]. rewrite E2. rewrite <- (concat_grow (buckets w) hn).
+    fold g. rewrite E1, Hb0. simpl. rewrite <- app_assoc. simpl.
+    rewrite !app_assoc. symmetry. apply Permutation_middle. }
+  assert (Hmm : 0 <= mn /\ mn <= h <= mx /\ mx < Z.of_nat (length g) /\
+                (0 < cnt w -> mn <= minH w /\ maxH w <= mx)).
+  { destruct (Z.eqb_spec (cnt w) 0) as [E0|E0]; injection Emm as <- <-.
+    - repeat split; lia.
+    - destruct (inv_cursor w I ltac:(lia)) as (C1 & C2 & C3). repeat split; lia. }
+  destruct Hmm as (M1 & M2 & M3 & M4).
+  assert (Hhin : forall m, hinOf w' m = if decide (m = n) then h else hinOf w m).
+  { intros m. unfold hinOf, w'; cbn [hin]. destruct (decide (m = n)) as [->|Hne].
+    - rewrite lookup_insert. reflexivity.
+    - rewrite lookup_insert_ne by congruence. reflexivity. }
+  split; [|split; [exact Hperm|exact Hhin]].
+  constructor.
+  - rewrite Hperm. apply NoDup_cons_2; [exact Hnin|apply (inv_nodup w I)].
+  - intros m z. unfold w' at 1; cbn [hin]. rewrite Hbk.
+    destruct (decide (m = n)) as [->|Hne].
+    + rewrite lookup_insert. split.
+      * intros [= <-]. split; [exact Hh|]. fold hn. rewrite decide_True by reflexivity.
+        apply elem_of_app; right; constructor.
+      * intros [Hz Hin]. destruct (decide (Z.to_nat z = hn)) as [E|E].
+        -- f_equal. unfold hn in E. lia.
+        -- exfalso. apply Hnin. apply elem_ids. eauto.
+    + rewrite lookup_insert_ne by congruence. rewrite (inv_hin w I m z).
+      destruct (decide (Z.to_nat z = hn)) as [->|]; [|reflexivity].
+      rewrite elem_of_app, elem_of_list_singleton. tauto.
+  - unfold w' at 1; cbn [cnt]. rewrite Hperm. simpl. rewrite (inv_cnt w I). lia.
+  - intros _. split; [exact M1|]. split.
+    + intros y. rewrite Hbk. unfold w'; cbn [minH maxH]. destruct (decide (y = hn)) as [->|Hne].
+      * intros _. unfold hn. lia.
+      * intros Hy. assert (0 < cnt w) as Hpos.
+        { apply cnt_pos_ids; [exact I|]. intros E. apply Hy. apply ids_nil_bucket, E. }
+        destruct (inv_cursor w I Hpos) as (C1 & C2 & C3). specialize (C2 y Hy).
+        specialize (M4 Hpos). lia.
+    + unfold w'; cbn [buckets maxH]. rewrite insert_length. exact M3.
+Qed.
+
+Lemma ids_nonempty_bucket w : ids w <> [] -> exists y, bucket w y <> [].
+Proof.
+  destruct (ids w) as [|n l] eqn:E; [congruence|]. intros _.
+  assert (n ∈ ids w) as Hin by (rewrite E; constructor).
+  apply elem_ids in Hin as [x Hx]. exists x. intros E'. rewrite E' in Hx. inversion Hx.
+Qed.
+
+Lemma bucket_nonempty_ids w y : bucket w y <> [] -> ids w <> [].
+Proof. intros H E. apply H. apply ids_nil_bucket, E. Qed.
+
+Lemma singleton_decide (m n : nid) {A} (a b : A) :
+  (if bool_decide (m ∈ [n]) then a else b) = if decide (m = n) then a else b.
+Proof.
+  destruct (decide (m = n)) as [->|Hne].
+  - rewrite bool_decide_eq_true_2; [reflexivity|constructor].
+  - rewrite bool_decide_eq_false_2; [reflexivity|].
+    intros ?%elem_of_list_singleton. congruence.
+Qed.
+
+Lemma heap_remove_spec : forall w n, inv w -> Heap.mem w n = true ->
+  exists w', Heap.remove w n = Ok w' /\ inv w' /\ Heap.ids w ≡ₚ n :: Heap.ids w' /\
+             forall m, Heap.hinOf w' m = if decide (m = n) then unset else Heap.hinOf w m.
+Proof.
+  intros w n I Hm.
+  destruct (mem_true_inv w n I Hm) as (h & Hh & Hhin & HhinOf & Hb).
+  unfold remove. rewrite HhinOf. destruct (Z.ltb_spec h 0) as [|_]; [lia|].
+  set (hn := Z.to_nat h) in *.
+  destruct (bk_nonempty_lookup (buckets w) hn) as (b & Eb & _).
+  { intros E. unfold bucket in Hb. unfold bk in E. rewrite E in Hb. inversion Hb. }
+  rewrite Eb. rewrite (bk_lookup _ _ _ Eb : bucket w hn = b) in Hb.
+  rewrite bool_decide_eq_true_2 by exact Hb.
+  eexists; split; [reflexivity|].
+  set (b' := remove_first n b).
+  pose proof (remove_first_perm n b Hb : b ≡ₚ [n] ++ b') as Hp.
+  set (bs := <[hn:=b']> (buckets w)).
+  set (mn := if (h =? minH w) && bool_decide (b' = []) then _ else _).
+  assert (Hlen : (hn < length (buckets w))%nat) by (eapply lookup_lt_Some; eauto).
+  destruct (inv_take w hn b b' [n] mn (cnt w - 1) I Eb Hp eq_refl) as (I' & P' & H').
+  - intros Hpos. assert (0 < cnt w) as Hpos' by lia.
+    destruct (inv_cursor w I Hpos') as (C1 & C2 & C3).
+    assert (Hsub : forall y, bk bs y <> [] -> bucket w y <> [] /\ (y = hn -> b' <> [])).
+    { intros y. unfold bs. rewrite (bk_insert _ _ _ _ Hlen).
+      destruct (decide (y = hn)) as [->|Hne].
+      - intros Hb'. split; [|auto]. rewrite (bk_lookup _ _ _ Eb : bucket w hn = b).
+        intros ->. inversion Hb.
+      - intros Hy. split; [exact Hy|congruence]. }
+    unfold mn. destruct ((h =? minH w) && bool_decide (b' = [])) eqn:E.
+    + apply andb_true_iff in E as [E1 E2]. apply Z.eqb_eq in E1. apply bool_decide_eq_true in E2.
+      apply nextMinFrom_lb; [exact Hpos|]. intros y Hy.
+      destruct (Hsub y Hy) as [Hy1 Hy2]. specialize (C2 y Hy1).
+      assert (y <> hn) by (intros ->; apply Hy2; auto). unfold hn in *. lia.
+    + split; [exact C1|]. intros y Hy. apply C2, Hsub, Hy.
+  - split; [exact I'|]. split; [exact P'|]. intros m. rewrite H'. apply singleton_decide.
+Qed.
+
+Lemma scan_least w s x : inv w -> 0 < cnt w -> Z.of_nat s <= minH w ->
+  (forall y, (s <= y < x)%nat -> bk (buckets w) y = []) ->
+  forall y, bucket w y <> [] -> (x <= y)%nat.
+Proof.
+  intros I Hpos Hs S3 y Hy.
+  destruct (inv_cursor w I Hpos) as (C1 & C2 & C3). specialize (C2 y Hy).
+  destruct (decide (x <= y)%nat) as [|Hn]; [assumption|].
+  exfalso. apply Hy. apply S3. lia.
+Qed.
+
+Lemma heap_removeMin_spec : forall w n w', inv w -> Heap.removeMin w = Some (n, w') ->
+  is_min w n /\ inv w' /\ Heap.ids w ≡ₚ n :: Heap.ids w' /\
+  forall m, Heap.hinOf w' m = if decide (m = n) then unset else Heap.hinOf w m.
+Proof.
+  intros w n w' I H. unfold removeMin in H.
+  destruct (Z.leb_spec (cnt w) 0) as [|Hpos]; [discriminate|].
+  destruct (inv_cursor w I Hpos) as (C1 & C2 & C3).
+  pose proof (scan_drop_spec (buckets w) (Z.to_nat (minH w))) as S.
+  destruct (scan_from _ _) as [x|]; [|discriminate].
+  destruct S as (S1 & S2 & S3).
+  destruct (Z.of_nat x <=? maxH w); [|discriminate].
+  destruct (bk_nonempty_lookup _ _ S2) as (b & Elk & _).
+  assert (Eb : bucket w x = b) by (apply bk_lookup, Elk).
+  rewrite Eb in H. destruct b as [|n0 b']; [discriminate|].
+  injection H as Hn Hw. subst n0.
+  assert (Hlen : (x < length (buckets w))%nat) by (eapply lookup_lt_Some; eauto).
+  assert (Hleast : forall y, bucket w y <> [] -> (x <= y)%nat).
+  { apply (scan_least w (Z.to_nat (minH w))); auto. lia. }
+  set (bs := <[x:=b']> (buckets w)) in *.
+  set (mn := match b' with [] => _ | _ => _ end) in *.
+  destruct (inv_take w x (n :: b') b' [n] mn (cnt w - 1) I Elk (reflexivity _) eq_refl)
+    as (I' & P' & H').
+  - intros Hpos'.
+    assert (Hsub : forall y, bk bs y <> [] -> bucket w y <> [] /\ (y = x -> b' <> [])).
+    { intros y. unfold bs. rewrite (bk_insert _ _ _ _ Hlen).
+      destruct (decide (y = x)) as [->|Hne].
+      - intros Hb'. split; [|auto]. rewrite Eb. discriminate.
+      - intros Hy. split; [exact Hy|congruence]. }
+    assert (Hx : forall y, bk bs y <> [] -> Z.of_nat x <= Z.of_nat y).
+    { intros y Hy. destruct (Hsub y Hy) as [Hy1 _]. specialize (Hleast y Hy1). lia. }
+    unfold mn. destruct b' as [|n1 b''].
+    + apply nextMinFrom_lb; [exact Hpos'|]. intros y Hy.
+      destruct (Hsub y Hy) as [Hy1 Hy2]. specialize (Hleast y Hy1).
+      assert (y <> x) by (intros ->; apply Hy2; auto). lia.
+    + split; [lia|exact Hx].
+  - subst w'. split; [|split; [exact I'|split; [exact P'|]]].
+    + split.
+      * apply elem_ids. exists x. rewrite Eb. constructor.
+      * intros m [y Hy]%elem_ids.
+        rewrite (hinOf_bucket w n x I) by (rewrite Eb; constructor).
+        rewrite (hinOf_bucket w m y I Hy).
+        assert (x <= y)%nat; [|lia]. apply Hleast. intros E; rewrite E in Hy; inversion Hy.
+    + intros m. rewrite H'. apply singleton_decide.
+Qed.
+
+Lemma heap_removeMin_none : forall w, inv w -> (Heap.removeMin w = None <-> Heap.ids w = []).
+Proof.
+  intros w I. split.
+  - intros H. unfold removeMin in H.
+    destruct (Z.leb_spec (cnt w) 0) as [Hle|Hpos]; [apply cnt_zero_ids; assumption|].
+    exfalso.
+    destruct (inv_cursor w I Hpos) as (C1 & C2 & C3).
+    pose proof (scan_drop_spec (buckets w) (Z.to_nat (minH w))) as S.
+    destruct (scan_from _ _) as [x|].
+    + destruct S as (S1 & S2 & S3). specialize (C2 x S2).
+      destruct (Z.leb_spec (Z.of_nat x) (maxH w)); [|lia].
+      unfold bk in S2. unfold bucket in H. destruct (default [] (buckets w !! x)); [congruence|discriminate].
+    + destruct (ids_nonempty_bucket w) as [y Hy].
+      { intros E. rewrite (inv_cnt w I), E in Hpos. simpl in Hpos. lia. }
+      specialize (C2 y Hy). apply Hy. apply S. lia.
+  - intros E. unfold removeMin.
+    assert (cnt w = 0) as -> by (rewrite (inv_cnt w I), E; reflexivity).
+    reflexivity.
+Qed.
+
+Lemma heap_takeMinBlock_spec : forall w b w', inv w -> Heap.takeMinBlock w = (b, w') ->
+  inv w' /\ Heap.ids w ≡ₚ b ++ Heap.ids w' /\
+  (forall n m, n ∈ b -> m ∈ Heap.ids w -> Heap.hinOf w n <= Heap.hinOf w m) /\
+  (forall n m, n ∈ b -> m ∈ Heap.ids w' -> Heap.hinOf w n < Heap.hinOf w m) /\
+  (b = [] <-> Heap.ids w = []) /\
+  forall m, Heap.hinOf w' m = if bool_decide (m ∈ b) then unset else Heap.hinOf w m.
+Proof.
+  intros w b w' I H. unfold takeMinBlock in H.
+  pose proof (scan_drop_spec (buckets w) (Z.to_nat (Z.max 0 (minH w)))) as S.
+  destruct (scan_from _ _) as [x|].
+  - destruct S as (S1 & S2 & S3).
+    destruct (bk_nonempty_lookup _ _ S2) as (b0 & Elk & Hne).
+    assert (Eb : bucket w x = b0) by (apply bk_lookup, Elk).
+    rewrite Eb in H. injection H as Hb Hw. subst b0.
+    set (bs := <[x:=[]]> (buckets w)) in *.
+    set (c := cnt w - Z.of_nat (length b)) in *.
+    assert (Hp : b ≡ₚ b ++ []) by (rewrite app_nil_r; reflexivity).
+    destruct (inv_take w x b [] b (nextMinFrom bs c 0) c I Elk Hp eq_refl) as (I' & P' & H').
+    { intros Hpos. apply nextMinFrom_lb; [exact Hpos|]. intros; lia. }
+    fold bs in I', P', H'. rewrite Hw in I', P', H'. clear Hw.
+    assert (Hnd : NoDup (b ++ ids w')) by (rewrite <- P'; apply (inv_nodup w I)).
+    apply NoDup_app in Hnd as (_ & Hnd2 & _).
+    assert (Hleast : forall y, bucket w y <> [] -> (x <= y)%nat).
+    { intros y Hy. assert (0 < cnt w) as Hpos.
+      { apply cnt_pos_ids; [exact I|]. eapply bucket_nonempty_ids, Hy. }
+      destruct (inv_cursor w I Hpos) as (C1 & _).
+      apply (scan_least w (Z.to_nat (Z.max 0 (minH w)))); auto. lia. }
+    assert (Hbx : forall n, n ∈ b -> hinOf w n = Z.of_nat x).
+    { intros n Hn. apply (hinOf_bucket w n x I). rewrite Eb. exact Hn. }
+    split; [exact I'|]. split; [exact P'|]. split; [|split; [|split; [|exact H']]].
+    + intros n m Hn [y Hy]%elem_ids. rewrite (Hbx n Hn), (hinOf_bucket w m y I Hy).
+      assert (x <= y)%nat; [|lia]. apply Hleast. intros E; rewrite E in Hy; inversion Hy.
+    + intros n m Hn Hm. rewrite (Hbx n Hn).
+      assert (m ∈ ids w) as [y Hy]%elem_ids by (rewrite P'; apply elem_of_app; auto).
+      rewrite (hinOf_bucket w m y I Hy).
+      assert (x <= y)%nat by (apply Hleast; intros E; rewrite E in Hy; inversion Hy).
+      assert (y <> x); [|lia]. intros ->. rewrite Eb in Hy. exact (Hnd2 m Hy Hm).
+    + split; [congruence|]. intros E. rewrite E in P'. apply Permutation_nil_l in P'.
+      symmetry in P'. apply app_eq_nil in P' as [? _]. assumption.
+  - injection H as <- <-.
+    assert (E : ids w = []).
+    { destruct (ids w) as [|n l] eqn:E; [reflexivity|]. exfalso.
+      destruct (ids_nonempty_bucket w) as [y Hy]; [congruence|].
+      assert (0 < cnt w) as Hpos by (apply cnt_pos_ids; [exact I|congruence]).
+      destruct (inv_cursor w I Hpos) as (C1 & C2 & C3). specialize (C2 y Hy).
+      apply Hy. apply S. lia. }
+    split; [exact I|]. split; [reflexivity|].
+    split; [intros n m Hn; inversion Hn|]. split; [intros n m Hn; inversion Hn|].
+    split; [tauto|]. intros m. rewrite bool_decide_eq_false_2; [reflexivity|].
+    intros Hn; inversion Hn.
+Qed.
+
+(** nondecreasing only looks at the heights of the listed nodes *)
+Lemma nondecreasing_ext w1 w2 l :
+  (forall m, m ∈ l -> hinOf w1 m = hinOf w2 m) -> nondecreasing w1 l -> nondecreasing w2 l.
+Proof.
+  induction l as [|n l IH]; intros Hext; simpl; [auto|].
+  intros [H1 H2]. split.
+  - intros m Hm. rewrite <- !Hext by (try constructor; auto; right; auto). auto.
+  - apply IH; [|exact H2]. intros m Hm. apply Hext. right; auto.
+Qed.
+
+Lemma drain_spec_gen fuel : forall w l w', inv w -> fuel = length (ids w) ->
+  Heap.drain fuel w = (l, w') ->
+  l ≡ₚ Heap.ids w /\ nondecreasing w l /\ inv w' /\ Heap.ids w' = [].
+Proof.
+  induction fuel as [|fuel IH]; intros w l w' I Hf H; simpl in H.
+  - injection H as <- <-. assert (ids w = []) as E by (destruct (ids w); [reflexivity|discriminate]).
+    rewrite E. simpl. auto.
+  - destruct (removeMin w) as [[n w1]|] eqn:Erm.
+    + destruct (heap_removeMin_spec w n w1 I Erm) as ([Hmin1 Hmin2] & I1 & P1 & H1).
+      destruct (drain fuel w1) as [l1 w2] eqn:Ed. injection H as <- <-.
+      assert (Hf1 : fuel = length (ids w1)).
+      { rewrite P1 in Hf. simpl in Hf. lia. }
+      destruct (IH w1 l1 w2 I1 Hf1 Ed) as (Pl & Nl & I2 & E2).
+      assert (Hnd : NoDup (n :: ids w1)) by (rewrite <- P1; apply (inv_nodup w I)).
+      apply NoDup_cons_1_1 in Hnd. rename Hnd into Hnin.
+      split; [rewrite P1, Pl; reflexivity|]. split; [|auto].
+      simpl. split.
+      * intros m Hm. apply Hmin2. rewrite P1. right. rewrite <- Pl. exact Hm.
+      * apply (nondecreasing_ext w1 w l1); [|exact Nl].
+        intros m Hm. rewrite H1. destruct (decide (m = n)) as [->|]; [|reflexivity].
+        exfalso. apply Hnin. rewrite <- Pl. exact Hm.
+    + apply (heap_removeMin_none w I) in Erm. rewrite Erm in Hf. discriminate.
+Qed.
+
+Lemma heap_drain_spec : forall w l w', inv w -> Heap.drain (length (Heap.ids w)) w = (l, w') ->
+  l ≡ₚ Heap.ids w /\ nondecreasing w l /\ inv w' /\ Heap.ids w' = [].
+Proof. intros w l w' I H. eapply drain_spec_gen; eauto. Qed.
+
+Lemma heap_clear_spec : forall w l w', inv w -> Heap.clear w = (l, w') ->
+  l ≡ₚ Heap.ids w /\ nondecreasing w l /\ inv w' /\ Heap.ids w' = [] /\ Heap.len w' = 0.
+Proof.
+  intros w l w' I H. unfold clear in H.
+  rewrite (inv_cnt w I), Nat2Z.id in H.
+  destruct (drain (length (ids w)) w) as [l0 w0] eqn:Ed. injection H as <- <-.
+  destruct (heap_drain_spec w l0 w0 I Ed) as (P & N & I0 & E0).
+  split; [exact P|]. split; [exact N|].
+  assert (Eids : ids (mk (replicate (length (buckets w)) []) 0 0 0 (hin w0)) = []).
+  { unfold ids; cbn [buckets]. apply concat_replicate_nil. }
+  split; [|split; [exact Eids|reflexivity]].
+  constructor.
+  - rewrite Eids. constructor.
+  - intros n x. cbn [hin]. unfold bucket; cbn [buckets].
+    fold (bk (replicate (length (buckets w)) []) (Z.to_nat x)). rewrite bk_replicate_nil.
+    split.
+    + intros Hs. apply (inv_hin w0 I0) in Hs as [_ Hin]. exfalso.
+      assert (n ∈ ids w0) as Hn by (apply elem_ids; eauto). rewrite E0 in Hn. inversion Hn.
+    + intros [_ Hin]; inversion Hin.
+  - rewrite Eids. reflexivity.
+  - cbn [cnt]. lia.
+Qed.
+
+Lemma heap_fix_spec : forall w n h, inv w -> Heap.mem w n = true -> 0 <= h ->
+  exists w', Heap.fix_ w n h = Ok w' /\ inv w' /\ Heap.ids w' ≡ₚ Heap.ids w /\
+             forall m, Heap.hinOf w' m = if decide (m = n) then h else Heap.hinOf w m.
+Proof.
+  intros w n h I Hm Hh.
+  destruct (heap_remove_spec w n I Hm) as (w1 & E1 & I1 & P1 & H1).
+  assert (Hm1 : mem w1 n = false).
+  { unfold mem. apply bool_decide_eq_false. rewrite H1, decide_True by reflexivity. auto. }
+  destruct (heap_add_spec w1 n h I1 Hm1 Hh) as (w2 & E2 & I2 & P2 & H2).
+  exists w2. unfold fix_. rewrite E1. simpl. split; [exact E2|]. split; [exact I2|].
+  split; [rewrite P2, P1; reflexivity|].
+  intros m. rewrite H2, H1. destruct (decide (m = n)); reflexivity.
+Qed.
+
+Lemma heap_step_total : forall w o, inv w -> pre w o -> exists r w', step w o = Ok (r, w').
+Proof.
+  intros w o I Hp. destruct o as [n h|n h|n|n h| | |]; simpl in *.
+  - destruct Hp as [Hm Hh]. destruct (heap_add_spec w n h I Hm Hh) as (w' & E & _).
+    rewrite E. simpl. eauto.
+  - unfold addIfNotPresent. destruct (mem w n); simpl; [eauto|].
+    destruct (add_ok w n h Hp) as [w' E]. rewrite E. simpl. eauto.
+  - destruct (heap_remove_spec w n I Hp) as (w' & E & _). rewrite E. simpl. eauto.
+  - destruct Hp as [Hm Hh]. destruct (heap_fix_spec w n h I Hm Hh) as (w' & E & _).
+    rewrite E. simpl. eauto.
+  - destruct (removeMin w) as [[n w']|]; eauto.
+  - destruct (takeMinBlock w) as [b w']; eauto.
+  - destruct (clear w) as [l w']; eauto.
+Qed.
+
+Lemma step_inv w o r w' : inv w -> pre w o -> step w o = Ok (r, w') -> inv w'.
+Proof.
+  intros I Hp Hs. destruct o as [n h|n h|n|n h| | |]; simpl in *.
+  - destruct Hp as [Hm Hh]. destruct (heap_add_spec w n h I Hm Hh) as (w1 & E & I1 & _).
+    rewrite E in Hs. simpl in Hs. injection Hs as _ <-. exact I1.
+  - unfold addIfNotPresent in Hs. destruct (mem w n) eqn:Hm; simpl in Hs.
+    + injection Hs as _ <-. exact I.
+    + destruct (heap_add_spec w n h I Hm Hp) as (w1 & E & I1 & _).
+      rewrite E in Hs. simpl in Hs. injection Hs as _ <-. exact I1.
+  - destruct (heap_remove_spec w n I Hp) as (w1 & E & I1 & _).
+    rewrite E in Hs. simpl in Hs. injection Hs as _ <-. exact I1.
+  - destruct Hp as [Hm Hh]. destruct (heap_fix_spec w n h I Hm Hh) as (w1 & E & I1 & _).
+    rewrite E in Hs. simpl in Hs. injection Hs as _ <-. exact I1.
+  - destruct (removeMin w) as [[n w1]|] eqn:E.
+    + injection Hs as _ <-. apply (heap_removeMin_spec w n w1 I E).
+    + injection Hs as _ <-. exact I.
+  - injection Hs as Hs. apply (heap_takeMinBlock_spec w r w' I Hs).
+  - injection Hs as Hs. apply (heap_clear_spec w r w' I Hs).
+Qed.
+
+Lemma heap_run_inv : forall w os w', inv w -> run w os w' -> inv w'.
+Proof.
+  intros w os w' I R. induction R as [w|w o os r w1 w2 Hp Hs R IH]; [exact I|].
+  apply IH. eapply step_inv; eauto.
+Qed.
